@@ -8,6 +8,7 @@ import glob
 import itertools
 import json
 import os
+import re
 
 import text_gen as g
 from markup_util import run_cases, impl_expand, canon_cfg
@@ -210,6 +211,16 @@ def gen_outside(ctx, n):
     return out
 
 
+RE_UNI_TAG = re.compile(r'<[\w\-:]*[^\x00-\x7f]')
+
+
+def outside_model(cs):
+    abbr, cfg, meta = cs
+    t = cfg.get('text')
+    texts = [abbr] + ([t] if isinstance(t, str) else list(t) if isinstance(t, list) else [])
+    return any(RE_UNI_TAG.search(x) for x in texts)
+
+
 # ---------------------------------------------------------------- run
 def run(ctx):
     ok = ctx.build(['props/C04.vo', 'run/MarkupRun.vo'])
@@ -233,8 +244,19 @@ def run(ctx):
     cases += gen_outside(ctx, 1500 if quick else 30000)
     for _, _, meta in cases:
         ctx.cover('kind:' + meta['kind'])
-    # 1. oracle + model comparison on every callback event, configuration as generated
-    impl = run_cases(ctx, model, cases, 'C04', None, mode='events')
+    # 1. oracle + model comparison on every callback event, configuration as generated.
+    # Model idealisation (DESIGN section 2, FormatHtml.starts_with_block_tag): the formatter's regex
+    # <[\w\-:]+[\s>] is modelled with ASCII \w, so a text that starts a tag-like run reaching a non-ASCII
+    # character is compared by the oracle only.
+    modelled = [k for k, cs in enumerate(cases) if not outside_model(cs)]
+    unmodelled = [k for k, cs in enumerate(cases) if outside_model(cs)]
+    ctx.cover('model:unicode-tag-name-not-modelled', len(unmodelled))
+    impl = [None] * len(cases)
+    for k, r in zip(modelled, run_cases(ctx, model, [cases[k] for k in modelled], 'C04', None, mode='events')):
+        impl[k] = r
+    for k, r in zip(unmodelled, run_cases(ctx, model, [cases[k] for k in unmodelled], 'C04', None, mode='events',
+                                          compare_model=False)):
+        impl[k] = r
     for (abbr, cfg, meta), r in zip(cases, impl):
         bad = oracle(abbr, cfg, meta, r)
         if bad:
@@ -243,7 +265,7 @@ def run(ctx):
     # 2. the same abbreviations under formatting configurations: model vs implementation (output string)
     rng = ctx.rng
     second = []
-    for abbr, cfg, meta in cases[::3]:
+    for abbr, cfg, meta in [cases[k] for k in modelled][::3]:
         c2 = json.loads(json.dumps(rng.choice(FORMATS)))
         if 'text' in cfg:
             c2['text'] = cfg['text']
